@@ -74,6 +74,10 @@ pub fn sig_valid3() -> Item {
 pub fn sig_valid4() -> Item {
     arr(vec![b(b""), map(vec![(u(1), i(-8))]), b(b"\x04\x04")])
 }
+/// The same label in the signature's protected and unprotected bucket (not enforced by the crate).
+pub fn sig_shared_label() -> Item {
+    arr(vec![bwrap(&map(vec![(u(4), b(b"\xaa"))])), map(vec![(u(4), b(b"\xbb"))]), b(b"\xcc")])
+}
 pub fn sig_bad_protected() -> Item {
     // protected content {4: h''}: empty kid
     arr(vec![bwrap(&map(vec![(u(4), b(b""))])), map(vec![]), b(b"\xaa")])
@@ -169,6 +173,7 @@ pub fn header_pairs() -> Vec<(Item, Item)> {
         arr(vec![sig_valid()]),
         arr(vec![sig_valid(), sig_valid2()]),
         arr(vec![sig_valid(), sig_valid2(), sig_valid3()]),
+        sig_shared_label(),
         arr(vec![sig_valid3(), sig_valid(), sig_valid2(), sig_valid4()]),
         arr(vec![]),
         sig_bad_protected(),
